@@ -88,6 +88,8 @@ def atlas_docs():
                          "color": {"allOf": [{"$ref": REF + "Color"}], "default": "red"}, "since": {"type": "string", "format": "date", "default": "2020-01-02"},
                          "zero": {"type": "integer", "default": 0}, "blank": {"type": "string", "default": ""}, "note": any_of({"type": "string"}, NULL),
                          "rate": {"type": "number", "default": 2}, "key": {"type": "string"},
+                         # integral defaults of an integer written in float form / as a string: the emitted literal is the normalised int
+                         "whole": {"type": "integer", "default": 10.0}, "whole_s": {"type": "integer", "default": "3"},
                          # optional unions WITH a default whose members all need construction (no plain member to fall through to)
                          "expires": {"oneOf": [{"type": "string", "format": "date"}, {"type": "string", "enum": ["never", "logout"]}], "default": "never"},
                          "renewed": {"oneOf": [{"type": "string", "format": "date"}, {"type": "string", "enum": ["never", "logout"]}]}}, required=["status", "id", "rate", "key"]),
